@@ -2,6 +2,9 @@
 import math
 
 
+_UNIT_NS = {"s": 10 ** 9, "ms": 10 ** 6, "us": 10 ** 3, "ns": 1}
+
+
 def canon_cell(x):
     """pandas cell -> canonical python value.
     None for NULL/NaN/NaT/NA (missingness); ("ts", ns) / ("td", ns) for times;
@@ -15,19 +18,22 @@ def canon_cell(x):
     if isinstance(x, pd.Timestamp):
         if pd.isna(x):
             return None
-        return ("ts", int(x.value) if x.unit == "ns" else int(x.as_unit("ns").value))
+        # exact integer arithmetic: values far outside the ns range must not make the oracle raise
+        return ("ts", int(x.asm8.view("i8")) * _UNIT_NS[x.unit])
     if isinstance(x, pd.Timedelta):
         if pd.isna(x):
             return None
-        return ("td", int(x.as_unit("ns").value))
+        return ("td", int(x.asm8.view("i8")) * _UNIT_NS[x.unit])
     if isinstance(x, np.datetime64):
         if np.isnat(x):
             return None
-        return ("ts", int(x.astype("M8[ns]").astype("int64")))
+        unit = np.datetime_data(x.dtype)[0]
+        return ("ts", int(x.astype("int64")) * _UNIT_NS.get(unit, 1))
     if isinstance(x, np.timedelta64):
         if np.isnat(x):
             return None
-        return ("td", int(x.astype("m8[ns]").astype("int64")))
+        unit = np.datetime_data(x.dtype)[0]
+        return ("td", int(x.astype("int64")) * _UNIT_NS.get(unit, 1))
     if isinstance(x, (int, np.integer)):
         return int(x)
     if isinstance(x, (float, np.floating)):
